@@ -94,6 +94,45 @@ def clauses(fname, ftype, tag):
         return f"len({v}) == 6", [f"len({w}) == 6"] + [f"{w}[{i}] == {v}[{i}]" for i in range(6)]
     raise SystemExit(f"no clause template for field type {ftype}")
 
+def decoded(fname, ftype, tag):
+    """what a successfully decoded field is, as a function of the bytes at its offset only (read side)"""
+    m = "m." + fname
+    if ftype in ("types.MsgType", "types.SOM") or "offset" not in tag:
+        return []
+    off = int(re.search(r"offset:\s*([0-9]+)", tag).group(1))
+    R = "row(b)"
+    if ftype == "bool":
+        return [f"({m} <==> b[{off}] == 1)"]
+    if ftype in ("uint8", "byte"):
+        return [f"{m} == b[{off}]"]
+    if ftype == "uint16":
+        return [f"{m} == wire.u16({R}, {off})"]
+    if ftype in ("uint32", "types.SerialNumber"):
+        return [f"{m} == wire.u32({R}, {off})"]
+    if ftype == "types.Version":
+        return [f"{m} == 256 * b[{off}] + b[{off+1}]"]
+    if ftype == "types.PIN":
+        return [f"{m} == wire.u24({R}, {off})"]
+    if ftype == "types.HHmm":
+        return [f"wire.rhhmm({R}, {off}, {m}.hours, {m}.minutes)"]
+    if ftype == "*types.HHmm":
+        return [f"({m} != nil ==> wire.rhhmm({R}, {off}, {m}.hours, {m}.minutes))"]
+    if ftype == "types.Date":
+        return [f"wire.rdate({R}, {off}, {m}.abs, {m}.ns, {m}.loc)"]
+    if ftype == "types.DateTime":
+        return [f"wire.rdatetime({R}, {off}, {m}.abs, {m}.ns, {m}.loc)"]
+    if ftype == "types.SystemDate":
+        return [f"(wire.rsysdateOK({R}, {off}) ==> wire.rsysdate({R}, {off}, {m}.abs, {m}.ns, {m}.loc))"]
+    if ftype == "types.SystemTime":
+        return [f"wire.rsystime({R}, {off}, {m}.abs, {m}.ns, {m}.loc)"]
+    if ftype == "net.IP":
+        return [f"len({m}) == 16"] + [f"{m}[{12+i}] == b[{off+i}]" for i in range(4)]
+    if ftype == "netip.AddrPort":
+        return [f"{m}.ip.kind == 1", f"{m}.ip.bits == wire.be32({R}, {off})", f"{m}.port == wire.u16({R}, {off+4})"]
+    if ftype == "types.MacAddress":
+        return [f"len({m}) == 6"] + [f"{m}[{i}] == b[{off+i}]" for i in range(6)]
+    raise SystemExit(f"no decode template for field type {ftype}")
+
 def header(name):
     """(function code, protocol id) from the MsgType/SOM tags"""
     code, som = None, "0x17"
@@ -151,7 +190,15 @@ for name in order:
     # the status/event function 0x20 is also accepted with the v6.62 protocol id 0x19
     somc = "(b[0] == 0x17 || b[0] == 0x19)" if code.lower() == "0x20" else f"b[0] == {som}"
     ct += [f"//@ func lemmaDecode{name}", "//@   params b", "//@   returns (m, err)",
+           "//@   attr opaque = bcd.", "//@   attr noaxioms = time.",
            f"//@   ensures header: err == nil ==> len(b) == 64 && {somc} && b[1] == {code}"]
+    # every field of the decoded value is a function of the bytes at its own offset: in particular the value does
+    # not depend on bytes that belong to no field (C05)
+    dec = []
+    for f in fields:
+        dec += decoded(*f)
+    if dec:
+        ct.append("//@   ensures fields: err == nil ==> " + " && ".join(dec))
     slices = [f[0] for f in fields if f[1] in ("net.IP", "types.MacAddress", "net.HardwareAddr")]
     if slices:
         # decoded slices share no memory with the message buffer (C17)
